@@ -754,6 +754,38 @@ theorem storage_frame_count (dt tStart tEnd eps : K) (step : S → K → S) (u0 
       have := hnear.length_eq; simpa using this.symm
     rw [e2, hlen]; exact hnear
 
+theorem constInit_ge' (ts : Option K) (t : K) : t ≤ Interrupts.constInit ts t := by
+  unfold Interrupts.constInit Interrupts.pyMax
+  cases ts with
+  | none => exact le_refl _
+  | some s => simp only; split_ifs with h <;> [exact h.le; exact le_refl _]
+
+/-- **served_exactly_once_constant_interrupts**: the statement for the concrete classes, including
+`ConstantInterrupts(D, t_start=ts)`: the schedule starts at `max(t_start, ts)` -/
+theorem served_exactly_once_constant_interrupts (dt tStart tEnd eps : K) (step : S → K → S) (u0 : S)
+    (specs : List (TrackerSpec K S)) (hdt : 0 < dt) (he0 : 0 < eps) (he1 : eps ≤ 1 / 2)
+    (D : K) (hD : dt ≤ D) (j : Nat) (sp : TrackerSpec K S) (hj : specs[j]? = some sp)
+    (ts : Option K) (hsched : sp.sched = .const D ts) :
+    ∃ m : Nat,
+      List.Forall₂ (Near dt D (Interrupts.constInit ts tStart)) (List.range m)
+        (callsOf j (runSpec dt tStart tEnd eps step u0 specs).trace) ∧
+      ((runSpec dt tStart tEnd eps step u0 specs).exit.reachedEnd →
+        ∀ k : Nat, Interrupts.constInit ts tStart + k * D <
+          (runSpec dt tStart tEnd eps step u0 specs).tFinal + eps * dt ↔ k < m) := by
+  set c : Cfg K S (Sched K) :=
+    { dt := dt, tStart := tStart, tEnd := tEnd, eps := eps, step := step, nxt := Sched.next } with hc
+  have hj' : (specs.map (fun s => s.init tStart))[j]? = some (sp.init tStart) := by
+    rw [List.getElem?_map, hj]; rfl
+  have hs0 : (sp.init tStart).sched = Sched.const D (Interrupts.constInit ts tStart) ∧
+      (sp.init tStart).due = some (Interrupts.constInit ts tStart) := by
+    unfold TrackerSpec.init
+    rw [hsched]
+    exact ⟨rfl, rfl⟩
+  have hge := constInit_ge' ts tStart
+  exact served_exactly_once_within_half_step c hdt he0 he1 D _ hD _ (sched_constLike D) u0
+    (specs.map (fun s => s.init tStart)) j (sp.init tStart) hj' hs0.1 hs0.2
+    (by show tStart - dt / 2 ≤ _; linarith) (defaultFuel c)
+
 /-! ### non-vacuity and corner witnesses (concrete runs at `Rat`) -/
 
 /-- dt = 1/4 on [0, 3] (12 steps); tracker 0: storage every 5/8 (= 2.5 dt, rounding ties);
